@@ -336,6 +336,13 @@ class PermutationVariable(Variable):
         return lb.tolist(), ub.tolist()
 
     def correct(self, value: tuple | list | np.ndarray) -> list[int]:
+        # a valid permutation of the item indexes is already in the domain: leave it unchanged (idempotence), so
+        # that the stored position, the evaluated solution and the decoded solution are one and the same
+        n_items = len(self.items)
+        if len(value) == n_items and all(
+            isinstance(v, (int, np.integer)) and not isinstance(v, bool) for v in value
+        ) and sorted(value) == list(range(n_items)):
+            return [int(v) for v in value]
         return np.argsort(value).tolist()
 
     def decode(self, value: tuple | list | np.ndarray) -> Any:
